@@ -350,6 +350,8 @@ _ADDFK = {'t': 'AddField', 'model': 'Beta', 'field': 'owner', 'ftype': 'ForeignK
           'attrs': [['null', 'true'], ['related_model', '"vapp.Alpha"']]}
 _RNF = {'t': 'RenameField', 'model': 'Alpha', 'old': 'b', 'new': 'bb', 'db_column': None, 'db_table': None}
 _RNM = {'t': 'RenameModel', 'old': 'Beta', 'new': 'Gamma', 'db_table': 'vapp_beta'}
+_RNM2 = {'t': 'RenameModel', 'old': 'Gamma', 'new': 'Delta', 'db_table': 'vapp_beta'}
+_RNF2 = {'t': 'RenameField', 'model': 'Alpha', 'old': 'bb', 'new': 'bbb', 'db_column': None, 'db_table': None}
 
 # deterministic family: the residual difference between the simulated signature and the models is
 # one-directional (something only the stored side has / only the models have); the remaining
@@ -424,6 +426,12 @@ FAMILY = [
     # a rename stated twice (the second one names a field / model that is gone), next to an ordinary change
     {'spec0': _two(), 'valid': [_RNF, _ADD], 'perturbation': 'family:duplicate RenameField', 'evolution': [_RNF, _RNF, _ADD]},
     {'spec0': _two(), 'valid': [_RNM, _ADD], 'perturbation': 'family:duplicate RenameModel', 'evolution': [_RNM, _RNM, _ADD]},
+    # a rename chain whose second link is stated twice (the optimiser folds the chain and drops that link: the copy of
+    # it that names a model that is gone must still be evaluated), and the same with fields
+    {'spec0': _two(), 'valid': [_RNM, _RNM2, _ADD], 'perturbation': 'family:duplicated link of a RenameModel chain',
+     'evolution': [_RNM, _RNM2, _RNM2, _ADD]},
+    {'spec0': _two(), 'valid': [_RNF, _RNF2, _ADD], 'perturbation': 'family:duplicated link of a RenameField chain',
+     'evolution': [_RNF, _RNF2, _RNF2, _ADD]},
     {'spec0': _two(), 'valid': [_RNM, _ADD], 'perturbation': 'family:RenameModel twice from the same old name',
      'evolution': [_RNM, dict(_RNM, new='Delta'), _ADD]},
 ]
